@@ -60,7 +60,7 @@ Q = {
     "cap1_ttl0": U("cap1_ttl0", nkeys=2, maxt=2),
     "cap2_tti": U("cap2_tti", nkeys=2, maxt=3),
     "cap_weight2": U("cap_weight", nkeys=2, weights=(0, 1, 2, 5)),
-    # concurrent cache, sequential client, every history up to `depth` calls
+    # concurrent cache, sequential client, every history of fewer than `depth` calls (MaxDepth = depth)
     "s_cap1": S("cap1", depth=6),
     "s_cap2_w": S("cap2_w", weights=(0, 1, 5), depth=5),
     "s_cap1_ttl": S("cap1_ttl", depth=6),
